@@ -6,7 +6,7 @@ CONSTANTS
   U = 4
   Unit <- UnitDef
   MaxLines = 6
-  NMins = {2, 3}
+  NMins = {0, 1, 2, 3}
   OutSels <- OutSelsDef
   PostSels <- PostSelsDef
   Forms = {"path", "obj", "list"}
